@@ -138,6 +138,10 @@ theorem Delivers.single {X : Setup} {b : Nat} {T S : List Int} {C0 : List (Nat Ã
   rw [hc] at hf
   exact Leads.here (by simpa using hf)
 
+theorem Delivers.cast {X : Setup} {b b' : Nat} {T S S' : List Int} {C0 : List (Nat Ã— Nat Ã— Nat)} {rs rs' : List St}
+    {s : VMState} (h : Delivers X b T S S' C0 rs s) (hb : b = b') (hr : rs = rs') : Delivers X b' T S S' C0 rs' s := by
+  subst hb; subst hr; exact h
+
 /-! ## captures -/
 
 theorem slotLog_append (sl : Nat â†’ Nat) (C D : List (Nat Ã— Nat Ã— Nat)) (c : Nat) :
